@@ -12,11 +12,11 @@ import (
 // protocol anchors found by role (DESIGN §2): nothing here depends on the
 // names doProcess / process.
 type protoAnchors struct {
-	traverse  *ssa.Function     // invokes Node.Process through a linkedNode
-	procCall  *ssa.Call         // that invoke
-	collector *ssa.Function     // selects on a chan Status with a recv state
-	colSelect *ssa.Select       //
-	fanout    *ssa.Function     // closure calling graphMap.Range inside collector
+	traverse  *ssa.Function // invokes Node.Process through a linkedNode
+	procCall  *ssa.Call     // that invoke
+	collector *ssa.Function // selects on a chan Status with a recv state
+	colSelect *ssa.Select   //
+	fanout    *ssa.Function // closure calling graphMap.Range inside collector
 	rangeCall ssa.CallInstruction
 	callback  *ssa.Function // closure passed to Range
 	send      *ssa.Function
@@ -407,6 +407,56 @@ func (c *Ctx) ruleFanout(a *protoAnchors) {
 	} else {
 		r.Ok(rule, "fanout:range", p.InstrPos(a.rangeCall), "ranges &g.roots of the processed graph")
 	}
+	// the fan-out is started on every path of the collector and ranges unconditionally: a
+	// shortcut in front of it ("no pipelines counted: nothing to do") decides from derived
+	// state what only the range itself knows, and a registered pipeline is skipped when the
+	// two disagree
+	var goFan ssa.Instruction
+	eachInstr(a.collector, func(in ssa.Instruction) {
+		if g, ok := in.(*ssa.Go); ok {
+			if mc, ok := g.Call.Value.(*ssa.MakeClosure); ok && mc.Fn == ssa.Value(a.fanout) {
+				goFan = in
+			}
+		}
+	})
+	for _, fx := range []struct {
+		f    *ssa.Function
+		must ssa.Instruction
+		what string
+	}{{a.collector, goFan, "start the fan-out"}, {a.fanout, a.rangeCall, "range over the registered pipelines"}} {
+		if fx.must == nil {
+			continue // reported by C03.wg fanout-goroutine
+		}
+		ok := true
+		for _, pa := range c.enum(rule, fx.f, PathOpts{}) {
+			if _, isRet := pa.End.(*ssa.Return); !isRet {
+				continue
+			}
+			passed := false
+			for _, s := range pa.Steps {
+				if s.In == fx.must && s.Depth == 0 {
+					passed = true
+				}
+				// a path that consulted the registered pipelines themselves (a direct Range over the
+				// graph's roots) decides from the source of truth, not from derived state
+				if ci, ok := s.In.(ssa.CallInstruction); ok && s.Depth == 0 && calleeName(ci.Common()) == "(*eventlogger.graphMap).Range" {
+					if base, ok := pa.TermsAt(s).Of(ci.Common().Args[0]).IsFieldAddr("roots"); ok && base.IsParam("0:g") {
+						passed = true
+					}
+				}
+			}
+			if passed || ctxDoneOnPath(pa) {
+				continue
+			}
+			if ok {
+				r.Bad(rule, p.ShortFn(fx.f)+":unconditional", p.InstrPos(pa.End), "this return is reached, with a context not known to be done, without having passed the point where "+p.ShortFn(fx.f)+" is to "+fx.what+": on that path no pipeline of the event type is traversed, whatever is registered ("+p.PathSummary(pa)+")")
+			}
+			ok = false
+		}
+		if ok {
+			r.Ok(rule, p.ShortFn(fx.f)+":unconditional", p.InstrPos(fx.must), "every return under a live context passed the point where the function is to "+fx.what)
+		}
+	}
 	cb := a.callback
 	paths := c.enum(rule, cb, PathOpts{Inline: inlineSmall(funcShort(a.traverse))})
 	for _, pa := range paths {
@@ -649,4 +699,25 @@ func (c *Ctx) ruleStep(a *protoAnchors) {
 			"the successor loop's only exit is index < len(node.next) failing (every successor is started)",
 			fmt.Sprintf("the successor loop has %d exits or an exit other than the exhausted index: some successors may never be started", exits))
 	}
+}
+
+// ctxDoneOnPath: the path established that the context is done (a successful receive
+// from ctx.Done() in a select, or ctx.Err() != nil).
+func ctxDoneOnPath(pa *Path) bool {
+	for _, at := range pa.Atoms {
+		switch {
+		case at.Op == "eq" && !at.Neg && at.L.Op == "Extract" && at.L.Name == "0" && at.R.Op == "Const":
+			// select index == k where state k receives from ctx.Done()
+			if sel, ok := at.L.Args[0].V.(*ssa.Select); ok {
+				if k, isK := constInt(at.R.V); isK && int(k) < len(sel.States) && sel.States[k].Dir == types.RecvOnly {
+					if strings.Contains(pa.TermsAt(pa.LastStep()).Of(sel.States[k].Chan).String(), "context.Context.Done]") {
+						return true
+					}
+				}
+			}
+		case at.Op == "eq" && at.Neg && strings.HasPrefix(at.L.String(), "Call[invoke context.Context.Err]") && at.R.Is("Const", "nil"):
+			return true
+		}
+	}
+	return false
 }
